@@ -214,7 +214,7 @@ def _auto_helpers(unit, root, r):
                 params.append(part.split(":")[0].strip().replace("mut ", ""))
         if "&mut" in sig or "->" not in sig:
             return None, []
-        call = (f"self.{name}_spec(" if cont and "self" in sig else f"{name}_spec(") + ", ".join((("*" + p_) if re.search(r"\b" + re.escape(p_) + r"\s*:\s*&(?!str)", sig) else p_) for p_ in params) + ")"
+        call = (f"self.{name}_spec(" if cont and "self" in sig else f"{name}_spec(") + ", ".join(params) + ")"
         new_items.append(gen.Fn(file=f, name=name, container=cont, as_spec=True, rules=list(unit.rules)))
         new_items.append(gen.Fn(file=f, name=name, container=cont, ret="r", contract=f"ensures r == {call},", rules=list(unit.rules),
                                 obligation="(helper added automatically: the function computes what its own body says)"))
